@@ -37,7 +37,7 @@ def run_case(case: Dict[str, Any]) -> CaseResult:
 
 def strategy(tier: str) -> Any:
     return sc.sched_case(tier=tier, modes=("ctl", "ctl", "free", "ctl-ex"), min_sites=2, max_sites=9, flags=True,
-                         seq_rate=0.25, prio=(-2, 4), faults=2, sel_rate=0.2, max_mc=4)
+                         seq_rate=0.25, prio=(-2, 4), faults=2, sel_rate=0.2, max_mc=4, profile_rate=0.25)
 
 
 def run_shard(H: Harness) -> None:
